@@ -56,8 +56,15 @@ Definition memb (n : nat) (l : list nat) : bool := existsb (Nat.eqb n) l.
 Definition lowest_free (ks : list nat) : nat :=
   match find (fun n => negb (memb n ks)) (seq 0 (S (length ks))) with Some n => n | None => 0 end.
 
+(* (own maximum: keeps the extraction free of a top-level `max`) *)
+Fixpoint lmax (l : list nat) : nat :=
+  match l with
+  | [] => 0
+  | x :: r => if Nat.leb (lmax r) x then x else lmax r
+  end.
+
 Definition alloc (reuse : bool) (s : st) : nat :=
-  if reuse then lowest_free (keys s) else S (list_max (keys s)).
+  if reuse then lowest_free (keys s) else S (lmax (keys s)).
 
 Fixpoint lookup (n : nat) (t : list (nat * nat)) : option nat :=
   match t with
